@@ -3,7 +3,7 @@ import SwhVerif.Lemmas.MerkleBulk
 # Merkle cache: `collect_node`, `collect`, `reset_collect` (C14 helper lemmas)
 -/
 namespace Swh.Merkle
-variable {H : Type} {hashFn : Data → List (Name × H) → H}
+variable {H : Type} {hashFn : Data → List (EntryV H) → H}
 
 /-! ### heaps that differ only in `collected` flags -/
 
@@ -212,7 +212,7 @@ theorem collect_spec (rank : Id → Nat) (hf : Nat) (hhf : ∀ m, rank m < hf) :
       exact m4 kc (by rw [s1.children]; exact hk) m hr'
 
 /-- collecting a sub-structure whose nodes are all marked changes nothing and reports nothing -/
-theorem collect_noop (hashFn : Data → List (Name × H) → H) (hf : Nat) :
+theorem collect_noop (hashFn : Data → List (EntryV H) → H) (hf : Nat) :
     ∀ (f : Nat) (g : Heap H) (n : Id),
     (∀ m, Reach g n m → (g.get m).collected = true) → collect hashFn f hf g n = (g, []) := by
   intro f
@@ -301,7 +301,7 @@ theorem resetCollect_spec (rank : Id → Nat) :
 /-- Re-hashing a node that has a cached hash (what `ret.update(child.collect())` and the set
 insertion do to nodes that were hashed when first put into a set) changes nothing: this is why
 `collect` in the model does not mention it. -/
-theorem rehash_noop (hashFn : Data → List (Name × H) → H) (h : Heap H) (n : Id) (v : H)
+theorem rehash_noop (hashFn : Data → List (EntryV H) → H) (h : Heap H) (n : Id) (v : H)
     (hv : (h.get n).cache = some v) : hashProp hashFn h n = (h, v) := by
   simp [hashProp, topFuel, updateHash, hv]
 
